@@ -1468,14 +1468,20 @@ class LuaFormatterWriter(LuaASTEchoWriter):
         # spaces.
         if start_pos != 0:
             spaces = re.sub(br'^ *--', b'  --', spaces)
+            spaces = re.sub(br'^ *//', b'  //', spaces)
 
         # If a comment is on its own line, indent it at the indent level.
         spaces = re.sub(
             br'\n *--',
             b'\n' + b' ' * self._indent_mult * self._indent + b'--',
             spaces)
+        spaces = re.sub(
+            br'\n *//',
+            b'\n' + b' ' * self._indent_mult * self._indent + b'//',
+            spaces)
         if start_pos == 0:
             spaces = re.sub(br'^ *--', b'--', spaces)
+            spaces = re.sub(br'^ *//', b'//', spaces)
 
         # If next non-space is on its own line, indent it at the indent level.
         # (\Z, not $: $ also matches before a final newline, which would
